@@ -912,13 +912,96 @@ Lemma grant_run cfg : NoDup (cfg_nodes cfg) -> forall evs c t m rt,
   term (loc s m) < t /\ term (loc (deliver_req cfg s c t m) m) = t.
 Proof. intros ND evs c t m rt s. apply grant_spec. now apply inv_run. Qed.
 
-(* FINDING 3: a follower that the leader has dropped from the active list twice
-   crashes on the health check it receives when it is reachable again:
-   rehashSkipped is still set from the first time (it is never cleared by a
-   matching check), so the list without the receiver is adopted at once and
-   gcProxySessions dereferences c.nodes[self] = nil *)
-Definition health_never_panics_statement (cfg : config) : Prop :=
-  forall evs idx, health_panics (run cfg evs) idx = false.
+(* ---- the panic site of the healthCheck case (repaired by the nil check) ---- *)
+
+Lemma gc_proxy_sessions_repaired cfg self active : gc_proxy_sessions true cfg self active = true.
+Proof.
+  unfold gc_proxy_sessions. apply forallb_forall. intros p _. unfold gc_for_node.
+  destruct (p =? self); reflexivity.
+Qed.
+
+(* unrepaired: it returns iff the list contains this node *)
+Lemma gc_proxy_sessions_unrepaired cfg self active :
+  gc_proxy_sessions false cfg self active = mem self active.
+Proof.
+  unfold gc_proxy_sessions. cbn [filter].
+  assert (Hrest : forallb (gc_for_node false self)
+                    (filter (fun p => negb (mem p active)) (peers cfg self)) = true).
+  { apply forallb_forall. intros p Hp. apply filter_In in Hp as [Hp _].
+    apply peers_In in Hp as [_ Hne]. unfold gc_for_node. apply Nat.eqb_neq in Hne. now rewrite Hne. }
+  destruct (mem self active); cbn [negb forallb]; [exact Hrest|].
+  unfold gc_for_node at 1. now rewrite Nat.eqb_refl.
+Qed.
+
+(* the repaired handler never panics: in ANY state, for any message *)
+Lemma health_never_panics_any cfg s idx : health_panics cfg s idx = false.
+Proof.
+  unfold health_panics, health_panics_gen.
+  destruct (nth_error (hnet s) idx) as [h|]; [|reflexivity].
+  destruct (electing _); [reflexivity|].
+  rewrite gc_proxy_sessions_repaired. cbn [negb]. apply andb_false_r.
+Qed.
+
+Lemma health_never_panics cfg evs idx : health_panics cfg (run cfg evs) idx = false.
+Proof. apply health_never_panics_any. Qed.
+
+(* neither does the leader's own call (its new list starts with itself), repaired or not *)
+Lemma leader_gc_never_panics repaired cfg n rest : leader_gc_panics repaired cfg n (n :: rest) = false.
+Proof.
+  unfold leader_gc_panics. destruct repaired; [now rewrite gc_proxy_sessions_repaired|].
+  rewrite gc_proxy_sessions_unrepaired. cbn. now rewrite Nat.eqb_refl.
+Qed.
+
+(* exactly when the unrepaired handler panics *)
+Lemma health_panics_unrepaired_iff cfg s idx :
+  health_panics_unrepaired cfg s idx = true <->
+  exists h, nth_error (hnet s) idx = Some h /\
+    let l := loc s (h_to h) in
+    electing l = None /\ term l <= h_term h /\
+    list_eqb (h_sig h) (sig_of (ring_nodes l)) = false /\ rehash_skipped l = true /\
+    mem (h_to h) (h_nodes h) = false.
+Proof.
+  unfold health_panics_unrepaired, health_panics_gen.
+  destruct (nth_error (hnet s) idx) as [h|]; [|split; [discriminate|intros (h & H & _); discriminate]].
+  split.
+  - destruct (electing (loc s (h_to h))) eqn:El; [discriminate|].
+    rewrite gc_proxy_sessions_unrepaired, !andb_true_iff, !negb_true_iff, Nat.ltb_ge.
+    intros [[[H1 H2] H3] H4]. exists h. cbv zeta. auto 10.
+  - intros (h' & [= <-] & El & H1 & H2 & H3 & H4). cbv zeta in *. rewrite El.
+    rewrite gc_proxy_sessions_unrepaired, !andb_true_iff, !negb_true_iff, Nat.ltb_ge. auto.
+Qed.
+
+(* an unrepaired execution that has not panicked is an execution of [step]:
+   every invariant and theorem about [run] holds for it *)
+Lemma run_unrepaired_from_some cfg evs : forall s s',
+  run_unrepaired_from cfg s evs = Some s' -> s' = fold_left (step cfg) evs s.
+Proof.
+  induction evs as [|e evs IH]; cbn; intros s s' H; [congruence|].
+  destruct (step_unrepaired cfg s e) as [s1|] eqn:E; [|discriminate].
+  assert (s1 = step cfg s e).
+  { unfold step_unrepaired in E. destruct e; try congruence.
+    destruct (health_panics_unrepaired cfg s idx); congruence. }
+  subst. now apply IH.
+Qed.
+
+Lemma run_unrepaired_some cfg evs s : run_unrepaired cfg evs = Some s -> s = run cfg evs.
+Proof. apply run_unrepaired_from_some. Qed.
+
+Lemma safety_unrepaired cfg : NoDup (cfg_nodes cfg) -> forall evs s n n',
+  run_unrepaired cfg evs = Some s ->
+  leader (loc s n) = Some n -> leader (loc s n') = Some n' ->
+  term (loc s n) = term (loc s n') -> n = n'.
+Proof.
+  intros ND evs s n n' H. apply run_unrepaired_some in H. subst. now apply safety.
+Qed.
+
+(* FIXED FINDING (was finding 3): before the nil check a follower that the leader
+   had dropped from the active list twice crashed on the health check it received
+   when reachable again: rehashSkipped is still set from the first time (it is
+   never cleared by a matching check), so the list without the receiver is adopted
+   at once and gcProxySessions dereferenced c.nodes[self] = nil *)
+Definition health_never_panics_unrepaired_statement (cfg : config) : Prop :=
+  forall evs idx, health_panics_unrepaired cfg (run cfg evs) idx = false.
 
 Definition evs_flap : list event :=
   [Tick 0 [] []; DeliverReq 0 1 1; DeliverRep 0 1 1;   (* 0 leads term 1 *)
@@ -928,5 +1011,15 @@ Definition evs_flap : list event :=
    Tick 0 [] [1];                                      (* 2 dropped a second time *)
    Tick 0 [2] [1; 2]].                                 (* back again: the check carries {0,1} *)
 
-Lemma health_never_panics_refuted : ~ health_never_panics_statement cfg3.
+Lemma health_never_panics_unrepaired_refuted : ~ health_never_panics_unrepaired_statement cfg3.
 Proof. intros H. specialize (H evs_flap 0). vm_compute in H. discriminate H. Qed.
+
+(* the same as an execution of the unrepaired step function: it ends in a panic,
+   while the repaired code completes it and the node adopts the ring {0,1} *)
+Lemma flap_unrepaired_panics : run_unrepaired cfg3 (evs_flap ++ [DeliverHealth 0]) = None.
+Proof. vm_compute. reflexivity. Qed.
+
+Lemma flap_repaired_adopts :
+  let s := run cfg3 (evs_flap ++ [DeliverHealth 0]) in
+  ring_nodes (loc s 2) = [0; 1] /\ leader (loc s 2) = Some 0 /\ term (loc s 2) = 1.
+Proof. vm_compute. auto. Qed.
